@@ -1,6 +1,6 @@
 (* The grammar's user actions (src/aidl.lalrpop), one function per action body.  translate/user_actions.py maps the
    body text that lalrpop copied into aidl.rs to these functions; Gen/ParseActions.v calls them. *)
-From AidlV Require Export Model.Sem Model.Javadoc.
+From AidlV Require Export Model.Sem Model.Javadoc Model.Vty.
 
 Definition res := (sem * list diag)%type.
 Definition ok (v : sem) : res := (v, []).
@@ -154,7 +154,8 @@ Definition act_Enum (cx : ctx) (p0 annotations fp1 sp1 s sp2 v fp2 : sem) : res 
   | _, _, _ => bad
   end.
 
-(* str::parse::<u32>() on [0-9]+ *)
+(* str::parse::<u32>(): optional '+', then decimal digits; empty / non-digit / overflow are errors whose Display text
+   ends up in the diagnostic *)
 Definition digit_val (c : N) : option N := if N.leb 48 c && N.leb c 57 then Some (c - 48) else None.
 Fixpoint parse_digits (s : str) (acc : N) : option N :=
   match s with
@@ -162,6 +163,28 @@ Fixpoint parse_digits (s : str) (acc : N) : option N :=
   | c :: s' => match digit_val c with Some d => parse_digits s' (acc * 10 + d) | None => None end
   end.
 Definition u32_max : N := 4294967295.
+Inductive parse_res := POk (n : N) | PErr (msg : string).
+Definition parse_u32 (s : str) : parse_res :=
+  match s with
+  | [] => PErr "cannot parse integer from empty string"
+  | c :: rest =>
+      let digits := if N.eqb c 43 then rest else s in
+      match digits with
+      | [] => PErr "invalid digit found in string"
+      | _ => match parse_digits digits 0 with
+             | None => PErr "invalid digit found in string"
+             | Some x => if N.leb x u32_max then POk x else PErr "number too large to fit in target type"
+             end
+      end
+  end.
+
+(* the four ranges of a method, in the order the struct literal evaluates them; ds = what the transact code pushed *)
+Definition method_finish (cx : ctx) (fp1 fp2 sp1 sp2 vp1 vp2 owp1 owp2 : sem)
+           (mk : range -> range -> range -> range -> method) (ds : list diag) : res :=
+  match with_range cx fp1 fp2 (fun fr => with_range cx sp1 sp2 (fun sr =>
+          with_range cx vp1 vp2 (fun cr => with_range cx owp1 owp2 (fun owr => ok (VMethod (mk sr fr cr owr)))))) with
+  | (r, _) => (r, ds)
+  end.
 
 Definition act_Method (cx : ctx) (p0 annotations fp1 owp1 oneway owp2 rt sp1 n sp2 args vp1 v vp2 fp2 : sem) : res :=
   match as_annots annotations, is_some_sem oneway, rt, n, args with
@@ -169,24 +192,19 @@ Definition act_Method (cx : ctx) (p0 annotations fp1 owp1 oneway owp2 rt sp1 n s
       match all_of as_arg la with
       | Some al =>
           with_doc cx p0 (fun doc =>
-            let code_k (code : option N) (ds : list diag) : res :=
-              match with_range cx fp1 fp2 (fun fr => with_range cx sp1 sp2 (fun sr =>
-                      with_range cx vp1 vp2 (fun cr => with_range cx owp1 owp2 (fun owr =>
-                        ok (VMethod (Method ow name ret al an code doc sr fr cr owr)))))) with
-              | (r, _) => (r, ds)
-              end in
+            let fin (code : option N) (ds : list diag) : res :=
+              method_finish cx fp1 fp2 sp1 sp2 vp1 vp2 owp1 owp2
+                            (fun sr fr cr owr => Method ow name ret al an code doc sr fr cr owr) ds in
             match v with
-            | VOpt None => code_k None []
+            | VOpt None => fin None []
             | VOpt (Some (VTuple [VLoc ip; VTok digits])) =>
-                match parse_digits digits 0 with
-                | Some x =>
-                    if N.leb x u32_max then code_k (Some x) []
-                    else match mk_range cx ip (match vp2 with VLoc e => e | _ => 0 end) with
-                         | Some r => code_k None [Diag DError r None []
-                                                       (lit "Invalid method transact code: number too large to fit in target type")]
-                         | None => panic
-                         end
-                | None => bad
+                match parse_u32 digits with
+                | POk x => fin (Some x) []
+                | PErr msg =>
+                    match mk_range cx ip (match vp2 with VLoc e => e | _ => 0 end) with
+                    | Some r => fin None [Diag DError r None [] (lit "Invalid method transact code: " ++ lit msg)]
+                    | None => panic
+                    end
                 end
             | _ => bad
             end)
@@ -325,3 +343,61 @@ Definition act_ValueEmptyBraces (cx : ctx) : res := ok (VString (lit "{}")).
 Definition act_ValueBraces (cx : ctx) : res := ok (VString (lit "{...}")).
 Definition act_ValueDotted (cx : ctx) (a b : sem) : res :=
   match a, b with VTok x, VTok y => ok (VString (x ++ dotc :: y)) | _, _ => bad end.
+
+
+(* ---- the user actions as a closed enumeration, so that the regenerated action table is pure data ---- *)
+Inductive utag :=
+| U_OptAidl | U_Package | U_Import | U_QualifiedName | U_ItemInterface | U_ItemParcelable | U_ItemEnum | U_ErrItem
+| U_Interface | U_IEMethod | U_IEConst | U_ErrIE | U_Parcelable | U_PEField | U_PEConst | U_ErrPE
+| U_Enum | U_SomeEnumElement | U_ErrEE | U_Method | U_Arg | U_Direction | U_Const | U_Field | U_EnumElement
+| U_TypeVoid | U_TypePrimitive | U_TypeString | U_TypeCharSequence | U_TypeArray | U_TypeList | U_TypeRawList
+| U_TypeMap | U_TypeRawMap | U_TypeCustom | U_AnnotationList | U_OptAnnotation | U_AnnotationParam
+| U_ValueToString | U_ValueEmptyBraces | U_ValueBraces | U_ValueDotted.
+
+(* the action applied to the values it binds, in the order of its Coq parameters *)
+Definition user_fn (u : utag) (cx : ctx) (vs : list sem) : res :=
+  match u, vs with
+  | U_OptAidl, [a; b; c; d] => act_OptAidl cx a b c d
+  | U_Package, [a; b; c; d; e] => act_Package cx a b c d e
+  | U_Import, [a; b; c; d; e; f] => act_Import cx a b c d e f
+  | U_QualifiedName, [a; b] => act_QualifiedName cx a b
+  | U_ItemInterface, [a] => act_ItemInterface cx a
+  | U_ItemParcelable, [a] => act_ItemParcelable cx a
+  | U_ItemEnum, [a] => act_ItemEnum cx a
+  | U_ErrItem, [a] => act_ErrItem cx a
+  | U_Interface, [a; b; c; d; e; f; g; h; i] => act_Interface cx a b c d e f g h i
+  | U_IEMethod, [a] => act_IEMethod cx a
+  | U_IEConst, [a] => act_IEConst cx a
+  | U_ErrIE, [a] => act_ErrIE cx a
+  | U_Parcelable, [a; b; c; d; e; f; g; h] => act_Parcelable cx a b c d e f g h
+  | U_PEField, [a] => act_PEField cx a
+  | U_PEConst, [a] => act_PEConst cx a
+  | U_ErrPE, [a] => act_ErrPE cx a
+  | U_Enum, [a; b; c; d; e; f; g; h] => act_Enum cx a b c d e f g h
+  | U_SomeEnumElement, [a] => act_SomeEnumElement cx a
+  | U_ErrEE, [a] => act_ErrEE cx a
+  | U_Method, [a; b; c; d; e; f; g; h; i; j; k; l; m; n; o] => act_Method cx a b c d e f g h i j k l m n o
+  | U_Arg, [a; b; c; d; e; f; g] => act_Arg cx a b c d e f g
+  | U_Direction, [a; b; c] => act_Direction cx a b c
+  | U_Const, [a; b; c; d; e; f; g; h; i] => act_Const cx a b c d e f g h i
+  | U_Field, [a; b; c; d; e; f; g; h; i] => act_Field cx a b c d e f g h i
+  | U_EnumElement, [a; b; c; d; e; f; g] => act_EnumElement cx a b c d e f g
+  | U_TypeVoid, [a; b; c] => act_TypeVoid cx a b c
+  | U_TypePrimitive, [a; b; c] => act_TypePrimitive cx a b c
+  | U_TypeString, [a; b; c] => act_TypeString cx a b c
+  | U_TypeCharSequence, [a; b; c] => act_TypeCharSequence cx a b c
+  | U_TypeArray, [a; b; c; d; e] => act_TypeArray cx a b c d e
+  | U_TypeList, [a; b; c; d; e] => act_TypeList cx a b c d e
+  | U_TypeRawList, [a; b] => act_TypeRawList cx a b
+  | U_TypeMap, [a; b; c; d; e; f] => act_TypeMap cx a b c d e f
+  | U_TypeRawMap, [a; b] => act_TypeRawMap cx a b
+  | U_TypeCustom, [a; b; c] => act_TypeCustom cx a b c
+  | U_AnnotationList, [a] => act_AnnotationList cx a
+  | U_OptAnnotation, [a; b] => act_OptAnnotation cx a b
+  | U_AnnotationParam, [a; b] => act_AnnotationParam cx a b
+  | U_ValueToString, [a] => act_ValueToString cx a
+  | U_ValueEmptyBraces, [] => act_ValueEmptyBraces cx
+  | U_ValueBraces, [] => act_ValueBraces cx
+  | U_ValueDotted, [a; b] => act_ValueDotted cx a b
+  | _, _ => bad
+  end.
